@@ -2,6 +2,20 @@
 import itertools, re
 
 LABELS = ["61", "62", "63", "2a", "41"]          # a b c * A
+# octets that differ from another pool octet (or from each other) ONLY in bit 5 without being a letter pair:
+# LF / '*', '_' / DEL, '@' / '`', '[' / '{'  (a case fold written as `| 0x20` or `^ 0x20` confuses them)
+FOLD_LABELS = ["0a", "5f", "7f", "40", "60", "5b", "7b"]
+
+
+def bit5_variant(rng, labels):
+    """the name with bit 5 flipped in one octet (a different name unless that octet is a letter)"""
+    out = [bytearray(bytes.fromhex(l)) for l in labels]
+    cand = [(i, j) for i, l in enumerate(out) for j in range(len(l))]
+    if not cand:
+        return list(labels)
+    i, j = rng.choice(cand)
+    out[i][j] ^= 0x20
+    return [bytes(l).hex() for l in out]
 APEXES = [[], ["63"], ["62", "63"], ["41", "62"]]
 T_A, T_NS, T_CNAME, T_SOA, T_MX, T_TXT, T_AAAA = 1, 2, 5, 6, 15, 16, 28
 QTYPES = [1, 2, 5, 6, 16, 28, 15, 255]
@@ -157,9 +171,10 @@ def gen_zone(rng, max_records=40):
     cls = rng.choice([1, 1, 1, 1, 7, 3])
     # owner pool: relative names, biased to build delegations at several depths, wildcards, ENTs
     pool = [[]]
+    alphabet = LABELS + (rng.sample(FOLD_LABELS, rng.randint(1, 3)) if rng.random() < 0.3 else [])
     for _ in range(rng.randint(1, 10)):
         depth = rng.choice([1, 1, 2, 2, 3, 3, 4])
-        pool.append([rng.choice(LABELS) for _ in range(depth)])
+        pool.append([rng.choice(alphabet) for _ in range(depth)])
     if rng.random() < 0.6:
         p = rng.choice(pool)
         pool.append(["2a"] + p[-2:] if p else ["2a"])
